@@ -283,6 +283,9 @@ func runCase(in caseIn) *caseOut {
 	if in.Special == "expire-quirk" {
 		return runQuirk(in, out)
 	}
+	if in.Special == "burst" {
+		return runBurst(in, out)
+	}
 	out.LevelFee = level
 	// ---- pool state: fillers (count / byte thresholds of the tiered fee), a sender at its limit, an eth sender
 	targets := []int{0, 1, 2, 3, 4, 5, 9, 19, 20, 21, 26}
@@ -673,6 +676,81 @@ func runQuirk(in caseIn, out *caseOut) *caseOut {
 	return out
 }
 
+// runBurst: more than the per-sender limit of valid transactions of ONE sender are submitted at the same time (the
+// admission pipeline checks the count in a serial stage and stores in a later one). Whatever the interleaving, the pool
+// never holds more than the limit for that sender, a refused transaction is not in the pool, an admitted one is.
+func runBurst(in caseIn, out *caseOut) *caseOut {
+	rng := lib.NewRng(in.Seed)
+	limit := int64(rng.Range(2, 5))
+	H := int64(rng.Range(10, 2000))
+	curMaxTxNum = bigTxNum
+	env := mpenv.New(mpenv.Opts{PoolSize: 256, MaxPerAcc: limit, MaxLast: 8, Queue: lib.Pick(rng, []string{"simple", "score"}), Height: H, BlockTime: t0})
+	defer env.Close()
+	out.Shape, out.Tier, out.PerAcc = "burst", 1, int(limit)
+	out.Desc = fmt.Sprintf("case %d (burst: %d concurrent valid transfers of one sender, per-sender limit %d)", in.Idx, limit+12, limit)
+	k := mpenv.NewKey("burst", in.Idx, false)
+	m := int(limit) + 12
+	txs := make([]*types.Transaction, m)
+	for i := range txs {
+		txs[i] = mpenv.Transfer(mpenv.NewKey("rcpt", i, false).Addr, 1, 10*rate, 0, int64(1000+i))
+		k.Sign(txs[i])
+	}
+	oks := make([]bool, m)
+	texts := make([]string, m)
+	var wg sync.WaitGroup
+	start := make(chan struct{})
+	for i := range txs {
+		wg.Add(1)
+		go func(i int) {
+			defer wg.Done()
+			<-start
+			ok, text, err := env.SendTx(txs[i])
+			if err != nil {
+				text = "harness: " + err.Error()
+			}
+			oks[i], texts[i] = ok, text
+		}(i)
+	}
+	close(start)
+	wg.Wait()
+	out.Submissions += m
+	pool, err := env.GetMempool(true)
+	if err != nil {
+		out.Incon = "burst: GetMempool failed: " + err.Error()
+		return out
+	}
+	in1 := map[string]bool{}
+	cnt := int64(0)
+	for _, t := range pool {
+		in1[mpenv.H(t)] = true
+		if t.From() == k.Addr {
+			cnt++
+		}
+	}
+	admitted := 0
+	for i := range txs {
+		if oks[i] {
+			admitted++
+		}
+		switch {
+		case !oks[i] && in1[mpenv.H(txs[i])]:
+			out.Violations = append(out.Violations, viol{Shape: "burst/refused-but-in-pool", Msg: fmt.Sprintf("case %d: concurrent submission %d of %d by one sender (limit %d) was answered %q but the transaction is in the pool", in.Idx, i, m, limit, texts[i]),
+				Wit: map[string]any{"limit": limit, "burst": m, "reply": texts[i], "pool_count_of_sender": cnt}})
+		case oks[i] && !in1[mpenv.H(txs[i])]:
+			out.Violations = append(out.Violations, viol{Shape: "burst/admitted-but-not-in-pool", Msg: fmt.Sprintf("case %d: concurrent submission %d of %d by one sender (limit %d) was admitted but is not in the pool", in.Idx, i, m, limit),
+				Wit: map[string]any{"limit": limit, "burst": m}})
+		}
+	}
+	if cnt > limit {
+		out.Violations = append(out.Violations, viol{Shape: "burst/over-sender-limit", Msg: fmt.Sprintf("case %d: after %d concurrent submissions the pool holds %d transactions of one sender, limit %d", in.Idx, m, cnt, limit),
+			Wit: map[string]any{"limit": limit, "burst": m, "pool_count_of_sender": cnt}})
+	}
+	out.Observed["burst"] = fmt.Sprintf("limit %d: %d admitted", limit, admitted)
+	out.Mutants["sender-limit-concurrent"] = m - admitted
+	out.ValidOK = admitted > 0
+	return out
+}
+
 func min64(a, b int64) int64 {
 	if a < b {
 		return a
@@ -726,6 +804,19 @@ func run(c *lib.Ctx) {
 	}
 	if !c.Skip(n) {
 		batches = append(batches, batchIn{Cases: []caseIn{{Idx: n, Seed: 1, Special: "expire-quirk"}}})
+	}
+	// concurrent bursts of one sender beyond its limit
+	nb := c.N(12, 400)
+	for i := 0; i < nb; i += 4 {
+		var b batchIn
+		for j := i; j < i+4 && j < nb; j++ {
+			if !c.Skip(n + 1 + j) {
+				b.Cases = append(b.Cases, caseIn{Idx: n + 1 + j, Seed: c.CaseRng("burst", j).U64(), Special: "burst"})
+			}
+		}
+		if len(b.Cases) > 0 {
+			batches = append(batches, b)
+		}
 	}
 	var mu sync.Mutex
 	var all []*caseOut
@@ -794,7 +885,12 @@ func run(c *lib.Ctx) {
 		if o.Idx < 3 {
 			sample = map[string]any{"case": o.Desc, "candidate": o.Shape, "mutants": o.Mutants, "pool_replies": o.Errors}
 		}
-		c.Case(fp, o.ValidOK && (len(o.Mutants) >= 6 || o.Observed["quirk-search"] != ""), sample)
+		if o.Shape == "burst" {
+			c.Count("burst_cases", 1)
+			c.Count("burst_submissions_refused", int64(o.Mutants["sender-limit-concurrent"]))
+			fp = lib.Fingerprint(map[string]any{"s": "burst", "p": o.PerAcc, "o": o.Observed["burst"], "i": o.Idx})
+		}
+		c.Case(fp, o.ValidOK && (len(o.Mutants) >= 6 || o.Observed["quirk-search"] != "" || o.Shape == "burst"), sample)
 	}
 	rep := map[string][]string{}
 	for cl, m := range errTexts {
@@ -807,6 +903,7 @@ func run(c *lib.Ctx) {
 	c.Extra("non_deciding_variants_observed", observed)
 	c.RequireEvents("mutants_total", 100)
 	c.RequireEvents("valid_admitted", 10)
+	c.RequireEvents("burst_submissions_refused", 20)
 	for _, cl := range []string{"signature", "on-chain", "expired", "recipient", "blacklist", "sender-limit", "fee", "eth-nonce-low", "eth-nonce-pending", "already-in-pool"} {
 		c.RequireEvents("mutants."+cl, 1)
 	}
